@@ -186,26 +186,26 @@ func runC35Multi(t *testing.T, tr emitter, caseID int64, c vt.Case) {
 	})
 
 	// appendSamples writes nblocks seconds worth of samples. The periodic head compaction advances an idle
-	// tenant's head window by one block per tick (wall-clock driven), i.e. the oldest appendable time follows
-	// the clock at the distance of the first batch (30 s). The first batch of a tenant therefore starts (block
-	// aligned) 30 s ago and every later batch 20 s ago - or one block after the previous batch, whichever is
-	// later: always in bounds, and always far enough in the past for the tenant to count as idle (3 s).
+	// tenant's head window by one block per tick (it is wall-clock driven), so the oldest appendable time
+	// follows the clock at about the distance of the tenant's latest batch. The n-th batch of a tenant
+	// therefore starts (block aligned) 30 - 6n seconds ago (n = 0, 1, 2, 3): each batch is well inside the
+	// window the previous one left, and still far enough in the past for the tenant to count as idle (3 s).
+	batches := map[string]int{}
 	lastEnd := map[string]int64{}
 	appendSamples := func(tn string, nblocks int) {
 		app, err := m.TenantAppendable(tn)
 		if err != nil {
 			t.Fatal(err)
 		}
-		var start int64
-		if le, ok := lastEnd[tn]; ok {
-			start = time.Now().Add(-20 * time.Second).UnixMilli()
-			start -= start % mtBlockMs
-			if start < le+mtBlockMs {
-				start = le + mtBlockMs
-			}
-		} else {
-			start = time.Now().Add(-30 * time.Second).UnixMilli()
-			start -= start % mtBlockMs
+		lag := 30 - 6*batches[tn]
+		if lag < 8 {
+			lag = 8
+		}
+		batches[tn]++
+		start := time.Now().Add(-time.Duration(lag) * time.Second).UnixMilli()
+		start -= start % mtBlockMs
+		if le, ok := lastEnd[tn]; ok && start < le+mtBlockMs {
+			start = le + mtBlockMs
 		}
 		end := start + int64(nblocks)*mtBlockMs
 		lastEnd[tn] = end
